@@ -160,7 +160,7 @@ def work(job: Tuple[int, Dict[str, bytes], str, bool]) -> Dict[str, Any]:
                             out["render"][f"{lang}-O"] = c if c[0] in ("INTERNAL", "HANG") else ("refused", c[1], "")
                             continue
                     for cls in renderer_registry[lang]:
-                        cls(p2, outdir=d, optimization_mode=opt).render_string()
+                        cls(p2, outdir=d, optimization_mode=opt).render()  # the real thing: render_string() and the write to the output file
                     out["render"][f"{lang}{'-O' if opt else ''}"] = ("ok", "", "")
                 except BaseException as e:  # noqa: BLE001
                     out["render"][f"{lang}{'-O' if opt else ''}"] = classify_exc(e)
